@@ -590,7 +590,7 @@ def handles_stage(ctx, binp, thorough):
     fam = [("h-a-s-2regs", hdefs(["a"], ["s"], one, 2, 2, 8 if thorough else 7)),
            ("h-ab-1reg", hdefs(["a", "b"], [], 'AllShapes({"a", "b"})', 1, 1, 8 if thorough else 7))]
     if thorough:
-        fam.append(("h-a-st-3regs", hdefs(["a"], ["s", "t"], one, 3, 1, 8)))
+        fam.append(("h-a-st-3regs", hdefs(["a"], ["s", "t"], one, 3, 1, 7)))    # 59 081 edges (8 steps: 219 145, 330 MB of edges)
     edges = []
     for name, d in fam:
         r = ctx.tlc(S, "MC_GlobalHandles", "MC_GlobalHandles.cfg", defines=d, want_edges=True, name="mc-" + name, timeout=1800, heap="2g")
